@@ -1,13 +1,13 @@
 // Mode `fn` of the translator: a first-order subset of Go -> Gallina (tools/notes/Translator.md).
 //
-//   extract fn  <file.go> <Name[,Name...]> <prefix>   Name is Func or Recv.Method; prints the Records the
-//                                                     functions need (only the fields they read, plus those
-//                                                     asked for by a Name of the form +Type.Field), a zero
-//                                                     value and a builder <prefix>T_mk : list string -> T per
-//                                                     Record, and one Definition <prefix><Func> /
-//                                                     <prefix><Recv>_<Method> per function (callees in the same
-//                                                     file first).
-//   extract src <file.go> <Name>                      the Go text of that function (for replay files)
+//	extract fn  <file.go> <Name[,Name...]> <prefix>   Name is Func or Recv.Method; prints the Records the
+//	                                                  functions need (only the fields they read, plus those
+//	                                                  asked for by a Name of the form +Type.Field), a zero
+//	                                                  value and a builder <prefix>T_mk : list string -> T per
+//	                                                  Record, and one Definition <prefix><Func> /
+//	                                                  <prefix><Recv>_<Method> per function (callees in the same
+//	                                                  file first).
+//	extract src <file.go> <Name>                      the Go text of that function (for replay files)
 //
 // Whatever is outside the subset ends the program with status 3 and a message; nothing is guessed.
 package main
@@ -67,14 +67,14 @@ type tr struct {
 	fset    *token.FileSet
 	file    *ast.File
 	prefix  string
-	imports map[string]string         // local package name -> import path
+	imports map[string]string          // local package name -> import path
 	structs map[string]*ast.StructType // declared struct types
-	named   map[string]ast.Expr       // other declared named types (type Functions []*Function)
-	funcs   map[string]*ast.FuncDecl  // "F" or "Recv.M"
+	named   map[string]ast.Expr        // other declared named types (type Functions []*Function)
+	funcs   map[string]*ast.FuncDecl   // "F" or "Recv.M"
 	used    map[string]map[string]bool // struct -> fields read
-	usedAny []string                  // structs mentioned, in order of first mention
-	done    map[string]string         // function key -> Definition text
-	order   []string                  // keys in emission order
+	usedAny []string                   // structs mentioned, in order of first mention
+	done    map[string]string          // function key -> Definition text
+	order   []string                   // keys in emission order
 	busy    map[string]bool
 
 	// per function
@@ -996,6 +996,11 @@ func (t *tr) block(l []ast.Stmt, k func() string) string {
 				die("unsupported range value %s", t.text(s.Value))
 			}
 			if id.Name != "_" {
+				for _, n := range t.assignedOuter(s.Body.List) {
+					if n == id.Name {
+						die("the range variable %s is assigned in the loop body", n)
+					}
+				}
 				t.env[id.Name] = ty.elem
 				elem = v(id.Name)
 			}
